@@ -61,8 +61,18 @@ def check_C14(ctx):
         cs.eval(t_, o_, fam_)
     for (t_, o_, fam_, *_m) in scale.long_fail_chains(ctx):
         cs.eval(t_, o_, fam_)
+    for (t_, o_, fam_, *_m) in scale.odd_keys(ctx):
+        cs.eval(t_, o_, fam_)
+    for (t_, o_, fam_, *_m) in scale.nil_object(ctx):
+        cs.eval(t_, o_, fam_)
+    for (t_, o_, fam_, *_m) in scale.nonascii_prefix(ctx):
+        cs.eval(t_, o_, fam_)
+    for t_ in [b'x eq "caf\xe9"', b'x eq "\xff"', b'x co "\xc3"', b'x eq "a\xe9b" or y eq 1', b'x in ["\xe9", "b"]', b'x eq "\xed\xa0\x80"', b'x eq "\xc3\xa9"', b'x\xe9 eq 1', b'x eq 1 \xe9']:
+        for o_ in (obj({'x': S(b'caf\xe9'), 'y': I(1)}), obj({'x': S(b'\xff')}), obj({'x': S('caf\ufffd')}), obj({'x': S('é')})):
+            cs.eval(t_, o_, 'invalid-utf8-literal')
     res = ctx.run(cs)
     ctx.compare(cs.cases, res, ['verdict', 'err', 'ev3'], nontrivial=lambda c, mo: True)
+    run_sequences(ctx, fields=('verdict', 'err', 'ev3'))
     for c in cs.cases:
         io = res.impl.get(c.id)
         if not io or 'ev3' not in io:
@@ -109,6 +119,10 @@ def check_C10(ctx):
         cs.eval(t_, o_, fam_)
     for (t_, o_, fam_, *_m) in scale.shared_suffixes(ctx):
         cs.eval(t_, o_, fam_)
+    for (t_, o_, fam_, *_m) in scale.nil_object(ctx):
+        cs.eval(t_, o_, fam_)
+    for (t_, o_, fam_, *_m) in scale.odd_keys(ctx):
+        cs.eval(t_, o_, fam_)
     res = ctx.run(cs)
     ctx.exhaustive = True
     ctx.compare(cs.cases, res, ['verdict', 'err'], scope=accepted)
@@ -126,6 +140,19 @@ def spec_violations(ctx, what):
         if f in ('model-observation', 'impl-observation', 'exception') or c.kind in ('kernel', 'src', 'harness'):
             continue
         ctx.violation('%s: implementation %s=%s, specification (proved model) %s=%s' % (what, f, i, f, m), [c])
+
+def run_sequences(ctx, fields=('verdict', 'err'), what='outcome'):
+    """scale.sequences in one process each (nshards=1): every case is compared with the proved model, which has no memory"""
+    for si, seq in enumerate(scale.sequences(ctx)):
+        cs_ = CaseSet()
+        for (t_, o_) in seq:
+            cs_.eval(t_, o_, 'sequence')
+        res_ = ctx.run(cs_, label='seq%d' % si, nshards=1)
+        before = len(ctx.mismatches)
+        ctx.compare(cs_.cases, res_, list(fields), scope=accepted)
+        for (c, f, i_, m_) in ctx.mismatches[before:]:
+            if c.kind == 'eval':
+                ctx.violation('in a sequence of rules evaluated one after the other in one process: implementation %s=%s, specification (proved model) %s=%s' % (f, i_, f, m_), [c])
 
 def spread_samples(ctx, cs, res, k=8):
     for c in cs.cases[:: max(1, len(cs.cases) // k)]:
@@ -355,6 +382,12 @@ def check_C09(ctx):
     # size and shape beyond small random rules (harness/scale.py)
     for (t_, o_, fam_, *_m) in scale.big_versions(ctx):
         cs.eval(t_, o_, fam_)
+    # two and more version comparisons in one rule, over the same or over equal texts
+    for a_ in VER_ATTRS + [ABSENT, I(1)]:
+        o_ = mk_obj(['x'], a_, extra={'y': a_} if a_ != ABSENT else {})
+        for t_ in ['x gt 2.0.0 or x lt 1.0.0', 'x eq 1.0.0 or x ne 1.0.0', 'x lt 1.0.0 or y ge 1.0.0', 'x ne 1.0.0 and y ne 1.0.0', 'x ge 0.0.0 or y ge 0.0.0 or x lt 0.0.0',
+                   'not (x eq 1.0.0) and not (x ne 1.0.0)', 'x gt 1.0.0 or y gt 1.0.0-alpha or x eq 1.0.0']:
+            cs.eval(t_, o_, 'ver-compound', attr=a_)
     res = ctx.run(cs)
     ev = [c for c in cs.cases if c.kind == 'eval']
     ctx.compare(ev, res, ['verdict', 'err'], scope=accepted)
@@ -583,9 +616,11 @@ def check_C18(ctx):
                  INT_ATTRS + FLOAT_ATTRS + [ABSENT, S('1'), ('nil',), ('b', True)]),
         'double': (['-1.0e19', '-1.0', '-0.5', '0.0', '0.1', '0.30000000000000004', '1.0', '1.5', '1.7', '2.0', '2.5', '100.0', '9007199254740993.0', '1.0e19', '1.0e308'],
                    [a for a in INT_ATTRS if a[0] == 'i'] + FLOAT_ATTRS + [('i64', 1), ABSENT, S('1.5'), ('nil',)]),
-        'string': (['', ' ', 'A', 'ab', 'ABC', 'abd', 'b', 'B c', 's', 'S', 't', 'k', 'i', '\u03c3', '\u03bc', 'ss', '\u017f', '\u03c2'],
+        'string': (['', ' ', 'A', 'ab', 'ABC', 'abd', 'b', 'B c', 's', 'S', 't', 'k', 'i', '\u03c3', '\u03bc', 'ss', '\u017f', '\u03c2',
+                    '1.9.0', '1.10.0', '1.0.0', '1.0.0-rc1', '10', '9', '2024-01-01T00:00:00Z', '2024-01-01T00:00:00.2Z', '2024-01-01T00:00:00.5Z', '2024-01-01T01:00:00+01:00'],
                    [S(x) for x in ['', 'abc', 'ABC', 'aBc', 'ab', 'b', 'a', ' ', 'abd', 'B', '\u017f', 's', '\u03c2', '\u03a3', '\u03c3',
-                                   '\u212a', 'K', '\u0130', 'I', '\u00b5', '\u039c', 'stra\u017f\u017fe', '\u00df', '\u1e9e']] + [('str', b'abc'), ABSENT, I(1), ('nil',), ('o', 8)]),
+                                   '\u212a', 'K', '\u0130', 'I', '\u00b5', '\u039c', 'stra\u017f\u017fe', '\u00df', '\u1e9e',
+                                   '1.9.0', '1.10.0', '1.0.0-rc1', '1.0.0+a', '2024-01-01T00:00:00.2Z', '2024-01-01T00:00:00.7', '2024-01-01T00:00:00Z', '9', '10']] + [('str', b'abc'), ABSENT, I(1), ('nil',), ('o', 8)]),
         'version': (['0.0.0', '1.0.0', '1.0.1', '1.9.0', '1.10.0', '2.0.0', '10.2.33', '18446744073709551615.0.0'],
                     VER_ATTRS + [ABSENT, I(1), ('str', b'1.0.0'), ('nil',)]),
     }
@@ -622,6 +657,8 @@ def check_C18(ctx):
             rc[op] = cs.eval('x %s "%s"' % (ctx.rng.choice(OP_SPELL[op]), lit), mk_obj(['x'], a), 'six-long-string', attr=a, lit=('string', lit), op=op)
             cc[op] = cs.opcall(OPT['string'], op, a, right_sx('string', lit), 'call-long-string')
         vectors.append(('string-long', a, lit, rc, cc))
+    for (t_, o_, fam_, *_m) in scale.odd_keys(ctx):
+        cs.eval(t_, o_, fam_)
     res = ctx.run(cs)
     ctx.compare([c for c in cs.cases if c.kind == 'eval'], res, ['verdict', 'err'], scope=accepted)
     ctx.compare([c for c in cs.cases if c.kind == 'opcall'], res, ['res', 'err'])
@@ -784,8 +821,23 @@ def check_C01(ctx):
     for (t_, o_, fam_, q_) in scale.long_chains(ctx):
         c = cs.eval(t_, o_, fam_, q=q_)
         groups.append((c, q_, None, None, {k.decode(): True for k, _ in o_[1]}))
+    # non-ASCII text early in the rule, nil / empty object (harness/scale.py): compound vs its comparisons evaluated alone
+    struct_groups = []
+    for (t_, o_, fam_, m_) in scale.nonascii_prefix(ctx) + scale.nil_object(ctx):
+        c_ = cs.eval(t_, o_, fam_)
+        if m_ and len(m_[0]) > 0:
+            struct_groups.append((c_, m_[1], [cs.eval(ct_, o_, fam_ + '-alone') for ct_ in m_[0]]))
     res = ctx.run(cs)
     ctx.compare([c for c in cs.cases if c.kind == 'eval'], res, ['verdict', 'err'], scope=accepted)
+    run_sequences(ctx, fields=('verdict', 'err', 'ev3'))
+    for c, fn, alone in struct_groups:
+        io = res.impl.get(c.id)
+        lo = [res.impl.get(x.id) for x in alone]
+        if not io or any(x is None or x['err'] != 'none' for x in lo):
+            continue
+        want = bool(fn(*[x['verdict'] == '1' for x in lo]))
+        if io['err'] != 'none' or (io['verdict'] == '1') != want:
+            ctx.violation('compound verdict %s/%s is not the Boolean combination (%s) of its comparisons evaluated alone' % (io['verdict'], io['err'], want), [c] + alone)
     ctx.compare([c for c in cs.cases if c.kind == 'syntax'], res, ['lexok', 'accept', 'tree'])
     for c, q, alone, sc, bits in groups:
         io = res.impl.get(c.id)
@@ -884,6 +936,8 @@ def check_C02(ctx):
         c_ = cs.eval(t_, o_, fam_)
         if m_:
             deep_groups.append((c_, m_[1], [cs.eval(ct_, o_, 'deep-path-alone') for ct_ in m_[0]]))
+    for (t_, o_, fam_, *_m) in scale.nonascii_prefix(ctx):
+        cs.eval(t_, o_, fam_)
     res = ctx.run(cs)
     ctx.compare(cs.cases, res, ['verdict', 'err', 'dbg'], scope=accepted)
     # what ONE path denotes is fixed by the statement (successive exact lookups, absent as soon as a step is missing or nil):
@@ -991,14 +1045,33 @@ def check_C17(ctx):
                     add(L, 't pr', 'k eq 1', o, 'law-long')
                     add('zz pr', L, 't pr', o, 'law-long')
                     add('k eq 1', 'k gt null', L, o, 'law-long')
+    # operands with non-ASCII literals: a law must not depend on what stands to the left of an operand
+    na_objs = [obj({'name': S('Zoë'), 'age': I(30), 'tier': I(2)}), obj({'name': S('Ann'), 'age': I(30), 'tier': I(1)}), obj({'name': S('zoë'), 'age': I(3)})]
+    for A_ in ['name eq "Zoë"', 'name co "é"', 'name eq "日本"', 'name ne "\U0001f600"']:
+        for o_ in na_objs:
+            add(A_, 'age gt 18', 'tier eq 2', o_, 'law-nonascii')
+            add('age gt 18', A_, 'tier eq 2', o_, 'law-nonascii')
+            add('tier eq 2', 'age gt 18', A_, o_, 'law-nonascii')
+    # A nested exactly d deep in plain parentheses, d at round limits: the two sides of a law nest differently
+    for d_ in ([127, 128, 255, 256, 999, 1000, 1023, 1024, 4095, 4096] if ctx.quick else [63, 64, 127, 128, 255, 256, 511, 512, 999, 1000, 1023, 1024, 4095, 4096, 9999, 10000, 16383, 16384, 65535, 65536, 99999, 100000]):
+        for leaf_ in (('t pr', 'zz pr') if d_ < 2000 else ('t pr',)):
+            A_ = '(' * d_ + leaf_ + ')' * d_
+            laws_ = law_pairs(A_, 'k eq 1', 'k eq 2')[:7]
+            for name, lhs, rhs, cond in (laws_ if d_ < 2000 else [laws_[0], laws_[1], laws_[5]]):
+                inst.append((name, cs.eval(lhs, objs[0], 'law-nesting'), cs.eval(rhs, objs[0], 'law-nesting'), cond, None, None))
     for depth in (9, 17, 33):
         A = 't pr'
         for _ in range(depth):
             A = 'not (%s)' % A
         add(A, 'k gt null', 'zz pr', objs[0], 'law-long')
         add('k gt null', A, A, objs[0], 'law-long')
+    for (t_, o_, fam_, *_m) in scale.nonascii_prefix(ctx):
+        cs.eval(t_, o_, fam_)
+    for (t_, o_, fam_, *_m) in scale.nil_object(ctx):
+        cs.eval(t_, o_, fam_)
     res = ctx.run(cs)
     ctx.compare(cs.cases, res, ['verdict', 'err'], scope=accepted)
+    run_sequences(ctx)
     for name, l, r, cond, a1, b1 in inst:
         lo, ro = res.impl.get(l.id), res.impl.get(r.id)
         if not lo or not ro:
@@ -1144,7 +1217,8 @@ def check_C20(ctx):
     spread_samples(ctx, cs, res)
 
 # ----------------------------------------------------------------------------
-HOSTILE = [('strpanic',), ('strnilptr',), ('strselfpanic',), ('nilmap',), ('nil',), F(float('nan')), F(float('inf')), F(float('-inf'))] + [('o', t) for t in list(range(21)) + [22, 23, 24, 25, 26, 27, 29, 30, 31, 32, 33, 34]] + \
+HOSTILE_STRINGS = [S(b'\x80' * 100), S(b'\xbf' * 65), S(b'\xff' * 70), S('\u00e9' * 40), S('a' * 63 + '\u00e9' + 'b' * 10), S('x' * 300), S(b'a' * 64 + b'\xc3'), S(b'\xe3\x81' * 40), S('\U0001f600' * 20), S(b'\x00' * 70)]
+HOSTILE = HOSTILE_STRINGS + [('strpanic',), ('strnilptr',), ('strselfpanic',), ('nilmap',), ('nil',), F(float('nan')), F(float('inf')), F(float('-inf'))] + [('o', t) for t in list(range(21)) + [22, 23, 24, 25, 26, 27, 29, 30, 31, 32, 33, 34]] + \
           [('str', b'abc'), ('strptr', b'1.0.0'), ('m', [(b'y', ('strpanic',))]), ('m', [(b'y', ('o', 3))])]
 
 def check_C07(ctx):
@@ -1167,9 +1241,15 @@ def check_C07(ctx):
         cs.eval(' and '.join(['x eq 1'] * depth), obj({'x': I(1)}), 'long-chain')
         cs.eval('.'.join(['a'] * depth) + ' pr', obj({'a': {'a': {'a': I(1)}}}), 'long-path')
         cs.eval('x in [' + ','.join(['1'] * depth) + ']', obj({'x': I(1)}), 'long-list')
+    # errors handed to the caller must stay usable after later calls on the same evaluator (kept= flag of the driver)
+    for text in T_RULES:
+        for i_ in range(len(T_OBJS) - 2):
+            ops = [('p', T_OBJS[i_]), ('d',), ('p', T_OBJS[i_ + 1]), ('d',), ('r',), ('p', T_OBJS[i_ + 2]), ('d',), ('p', T_OBJS[i_]), ('r',), ('d',)]
+            cs.hist(text, ops, 'kept-errors')
     # each batch in its own child process: a killed process is observed and attributed
     res = ctx.run(cs, nshards=ctx.n(16, 32))
-    ctx.compare(cs.cases, res, ['verdict', 'err'])
+    ctx.compare([c for c in cs.cases if c.kind != 'hist'], res, ['verdict', 'err'])
+    ctx.compare([c for c in cs.cases if c.kind == 'hist'], res, ['out'])
     for cr in ctx.crashes:
         if cr[0] == 'impl':
             c = cs.by_id.get(cr[4])
@@ -1177,6 +1257,8 @@ def check_C07(ctx):
     for c in cs.cases:
         io = res.impl.get(c.id)
         if not io:
+            continue
+        if c.kind == 'hist':
             continue
         if io.get('escaped') != '0':
             ctx.violation('a panic escaped a public call', [c], impl=io)
@@ -1272,8 +1354,20 @@ def check_C11(ctx):
             h = cs.hist(text, ops, 'hist-many-values')
             fresh = [cs.eval(text, o[1], 'hist-fresh') if o[0] in ('p', 'q') else None for o in ops]
             hs.append((h, ops, fresh))
+    # thousands of calls with a skewed outcome, then objects for which the operand order matters (adaptive reordering, counters that wrap)
+    for text, common, probes in [('tier eq "gold" or active eq true', obj({'tier': S('silver'), 'active': ('b', True)}), [obj({'active': ('b', True)}), obj({'tier': I(5), 'active': ('b', True)}), obj({'tier': S('gold')})]),
+                                 ('a.b eq 1 or ok eq true', obj({'a': {'b': I(2)}, 'ok': ('b', True)}), [obj({'a': I(5), 'ok': ('b', True)}), obj({'ok': ('b', True)}), obj({'a': {'b': I(1)}})]),
+                                 ('x gt 0 and y lt 10', obj({'x': I(1), 'y': I(50)}), [obj({'y': I(50)}), obj({'x': S('s'), 'y': I(50)}), obj({'x': I(1), 'y': I(5)})]),
+                                 ('x gt null or y eq 1', obj({'y': I(1)}), [obj({'y': I(1)}), obj({})])]:
+        n_ = 5000 if ctx.quick else 70000
+        ops = [('p', common)] * n_ + [('p', pr_) for pr_ in probes] + [('d',)] + [('p', common)] * 10 + [('p', pr_) for pr_ in probes] + [('d',)]
+        h = cs.hist(text, ops, 'hist-skewed')
+        ce_ = cs.eval(text, common, 'hist-fresh')
+        fresh = [(ce_ if o[1] is common else cs.eval(text, o[1], 'hist-fresh')) if o[0] in ('p', 'q') else None for o in ops]
+        hs.append((h, ops, fresh))
     res = ctx.run(cs)
     ctx.compare([c for c in cs.cases if c.kind == 'hist'], res, ['out'], nontrivial=lambda c, mo: True)
+    run_sequences(ctx)
     for h, ops, fresh in hs:
         io = res.impl.get(h.id)
         if not io or 'out' not in io or io['out'] == 'NEWERR':
@@ -1345,6 +1439,10 @@ def check_C13(ctx):
         cs.eval(t, big, 'big-values')
     for (t_, o_, fam_, *_m) in scale.shared_suffixes(ctx) + scale.aligned_lines(ctx)[:200]:
         cs.eval(t_, o_, fam_)
+    for (t_, o_, fam_, *_m) in scale.odd_keys(ctx):
+        cs.eval(t_, o_, fam_)
+    for (t_, o_, fam_, *_m) in scale.nil_object(ctx):
+        cs.eval(t_, o_, fam_)
     res = ctx.run(cs)
     ctx.compare([c for c in cs.cases if c.kind in ('eval', 'evals')], res, ['verdict', 'err'])
     for c in cs.cases:
@@ -1409,9 +1507,9 @@ CHECKS.update({'C12': check_C12})
 
 # ----------------------------------------------------------------------------
 ATTACHED = {0: '42', 1: 'true', 2: 'null', 3: '[1,"a"]', 4: '{"a":"x","b":1}', 5: '1.5', 6: None, 7: None, 8: None, 9: None,
-            10: '{}', 11: '[1,2]', 12: None, 13: '{"A":2}', 14: '"YWI="', 15: '9223372036854775807', 16: '1e+21', 17: '{}'}
+            10: '{}', 11: '[1,2]', 12: None, 13: '{"A":2}', 14: '"YWI="', 15: '9223372036854775807', 16: '1e+21', 17: '{}', 18: 'null', 19: '{}', 20: '{}'}
 NERR_KEYS = ['attr_path', 'operation', 'object_path_operand', 'rule_operand', 'err', 'msg', 'a', 'b', 'k<&>', 'K', 'é', '', 'z"q', 'x\ny']
-NERR_TEXTS = ['boom', '', 'Operand not present', 'a "quoted" <text> & more', 'tab\there', 'nl\n', 'é x', 'ctl\x01\x08\x0c\x1f\x7f', 'slash/\\']
+NERR_TEXTS = ['boom', '', 'read failed: unexpected EOF', 'strconv.ParseInt: parsing "x": invalid syntax', 'Operand not present', 'a "quoted" <text> & more', 'tab\there', 'nl\n', 'é x', 'ctl\x01\x08\x0c\x1f\x7f', 'slash/\\']
 
 def check_C19(ctx):
     cs = CaseSet()
